@@ -416,6 +416,30 @@ func (c *StreamCore) step(out *vgirpc.OutputCollector, producer bool, echo int64
 	case "noemit":
 		c.Dead = true
 		return nil
+	case "iceptswallow":
+		// an emit interceptor (the framework's pushdown filter) fails; the
+		// state logs that and returns without a data batch: a turn that
+		// emitted nothing
+		c.Dead = true
+		out.EmitInterceptor = func(b arrow.RecordBatch) (arrow.RecordBatch, error) {
+			return nil, fmt.Errorf("scripted interceptor failure")
+		}
+		_ = c.emit(out, st, echo)
+		out.EmitInterceptor = nil
+		return nil
+	case "iceptretry":
+		// the interceptor fails once; the state falls back to emitting the
+		// batch without it: an ordinary turn
+		out.EmitInterceptor = func(b arrow.RecordBatch) (arrow.RecordBatch, error) {
+			return nil, fmt.Errorf("scripted interceptor failure")
+		}
+		err := c.emit(out, st, echo)
+		out.EmitInterceptor = nil
+		if err != nil {
+			err = c.emit(out, st, echo)
+		}
+		c.Turn++
+		return err
 	case "double":
 		c.Dead = true
 		if err := c.emit(out, st, echo); err != nil {
